@@ -74,7 +74,7 @@ class TLCRun:
             for name, text in self.extra_files.items():
                 with open(os.path.join(work, name), "w") as f:
                     f.write(text)
-            cmd = ["java", "-XX:+UseParallelGC", "-Xmx8g", "-cp", JAR, "tlc2.TLC",
+            cmd = ["java", "-XX:+UseParallelGC", "-Xmx8g", "-Xss16m", "-cp", JAR, "tlc2.TLC",
                    "-workers", str(self.workers), "-metadir", os.path.join(work, "meta"),
                    "-noGenerateSpecTE", "-config", self.cfg + ".cfg"]
             if self.simulate:
